@@ -922,18 +922,50 @@ func c19RefusedNoEffect(c *Ctx) {
 		r.Fail("C19/REFUSED-NO-EFFECT", "post-request effects", p.Pos(fn.Pos()), "neither the torn-down return nor the unpairing delete was found")
 		return
 	}
+	// facts along the paths (correlated through boolean temporaries such as `succeeded := err == nil
+	// || isSwitch(err)`): bit 1 = the handler is known to have succeeded, bit 2 = a request has been
+	// handled since the last select
+	ff := &factFlow{}
+	ff.onEdge = func(cond ssa.Value, pol bool, res func(ssa.Value) ssa.Value) (uint, uint) {
+		switch x := cond.(type) {
+		case *ssa.BinOp:
+			if isNilConst(x.Y) && derivesErr(x.X) && (x.Op == token.EQL || x.Op == token.NEQ) {
+				if (x.Op == token.EQL) == pol {
+					return 1, 0
+				}
+			}
+		case *ssa.Call:
+			if cal := x.Call.StaticCallee(); isFn(cal, "", "isSwitchReadFuncError") && len(x.Call.Args) == 1 && derivesErr(x.Call.Args[0]) && pol {
+				return 1, 0
+			}
+		}
+		return 0, 0
+	}
+	ff.onInstr = func(in ssa.Instruction, res func(ssa.Value) ssa.Value) (uint, uint) {
+		if in == ssa.Instruction(call) {
+			return 2, 1
+		}
+		if _, isSel := in.(*ssa.Select); isSel {
+			return 0, 3 // the next loop iteration is another request
+		}
+		return 0, 0
+	}
+	before := ff.run(fn, 0)
 	for i, e := range effects {
-		leak, path, _ := core.PathAvoidingE(fn, call, func(y ssa.Instruction) bool { return y == e.in }, func(y ssa.Instruction) bool {
-			_, isSel := y.(*ssa.Select)
-			return isSel // the next loop iteration is another request
-		}, successEdge)
+		leak := false
+		for v := range before[e.in] {
+			if v&2 != 0 && v&1 == 0 {
+				leak = true
+			}
+		}
 		construct := fmt.Sprintf("ServerSession.runInner %s #%d", e.what, i+1)
 		if leak {
-			r.FailPath("C19/REFUSED-NO-EFFECT", construct, p.Pos(e.in.Pos()), "reachable after a request that handleRequestInner refused: the request of a foreign connection takes effect on the session", core.BlockPath(p, fn, path))
+			r.Fail("C19/REFUSED-NO-EFFECT", construct, p.Pos(e.in.Pos()), "reachable after a request that handleRequestInner refused: the request of a foreign connection takes effect on the session")
 		} else {
 			r.OK("C19/REFUSED-NO-EFFECT", construct, p.Pos(e.in.Pos()), "only on err == nil or the read-function switch marker")
 		}
 	}
+	_ = successEdge
 }
 
 // isParamOfHelper: v is a parameter of a function other than the one being
